@@ -366,6 +366,15 @@ def _unchecked_pops(ctx: Ctx, pm: ParserModel) -> None:
     n_pops = 0
     for n in cfg.nodes:
         st = n.stmt
+        if n.kind == "test" and n.cond is not None:
+            # `while stack.pop() != tok.type`: every value taken off is compared with the closing token right there
+            for c in ast.walk(n.cond):
+                if isinstance(c, ast.Call) and isinstance(c.func, ast.Attribute) and c.func.attr == "pop" and "stack" in norm(c.func.value):
+                    n_pops += 1
+                    par_ = mod.parent.get(c)
+                    if not (isinstance(par_, ast.Compare) and ".type" in norm(par_)):
+                        bad.append(short(n.cond))
+            continue
         if n.kind != "stmt":
             continue
         for c in n.calls():
